@@ -66,6 +66,11 @@ def child_main(argv) -> int:
     import faulthandler
 
     faulthandler.dump_traceback_later(20, exit=True)
+    # Python installs its KeyboardInterrupt handler only when SIGINT is not ignored at start-up, and a check launched in
+    # the background of a non-interactive shell inherits SIGINT ignored: make the run independent of that
+    import signal
+
+    signal.signal(signal.SIGINT, signal.default_int_handler)
     from mv import common
 
     common.setup_paths()
